@@ -179,9 +179,11 @@ class Encoder(object):
         self._side(n, zb > 0, 'base of symbolic power > 0: %s' % T.show(b, 120))
         coeff, facs = split_factors(b)
         res = None
+        if coeff <= 0:
+            # negative (or zero) base under a real symbolic power: undefined (complex / nan)
+            self._side(n, z3.BoolVal(False), 'constant factor %s of symbolic-power base > 0' % coeff)
+            return self.aux('undef')
         if coeff != 1:
-            if coeff <= 0:
-                raise NotEncodable('non-positive constant factor under symbolic power')
             for prime, mult in _small_factorisation(coeff):
                 a = self._atom(T.const(prime), T.mul(T.const(mult), e))
                 res = a if res is None else res * a
@@ -426,9 +428,7 @@ def split_factors(b):
             walk(t.args[0], e)
             walk(t.args[1], T.neg(e))
         elif t.op == 'neg':
-            if e.op == 'const' and e.args[0].denominator == 1:
-                if int(e.args[0]) % 2:
-                    coeff = -coeff
+            if e.op == 'const' and e.args[0].denominator == 1 and int(e.args[0]) % 2 == 0:
                 walk(t.args[0], e)
             else:
                 key = t
